@@ -5,7 +5,7 @@ from ..analysis import backward_slice
 from ..lanes import Lanes, Unsupported, check_method
 from .c01 import short, r01_5
 from .c02 import r02_2
-from .c07 import r07_6
+from .c07 import r07_6, r07_6b
 
 EXPLANATION = (
     "Equality of whole-library results across builds is a run-time property.  Decides, for every "
@@ -237,6 +237,7 @@ def r17_4(ctx):
     for c in configs(ctx):
         n0 = len(ctx.obligations)
         r07_6(ctx, c)
+        r07_6b(ctx, c)
         for o in ctx.obligations[n0:]:
             o["rule"] = "R17.4"
             o["key"] = f"{c}:{o['key']}"
